@@ -380,7 +380,7 @@ package graphql
 // ---------------------------------------------------------------- shared trusted contracts used by the transports / executor
 
 //@ trusted github.com/vektah/gqlparser/v2/gqlerror.Errorf(message, args) (err)
-//@   ensures err != nil
+//@   ensures err != nil && local(err)
 //@   nopanic
 //@   pure
 //@ trusted dyn:graphql.Now() (t)
@@ -485,8 +485,16 @@ package graphql
 //@   pure
 //@ trusted getOrCreateAndAppendField(c, name, alias, objectDefinition, creator) (f)
 //@   ensures f != nil
-//@ trusted deferrable(directives, variables) (shouldDefer, label)
+//@ trusted (*github.com/vektah/gqlparser/v2/ast.Value).Value(vars) (v, err)
 //@   pure
+// @defer: `if` and `label` are read tolerantly (a null or non-boolean `if` means "not decided here", never a
+// panic); no @defer directive means not deferred.
+//@ func deferrable [C13]
+//@   at! `arg.Value.Value(variables)`#1 requires arg.Name == "if"
+//@   at! `arg.Value.Value(variables)`#2 requires arg.Name == "label"
+//@   callsite resolveIfArgument: requires false
+//@   ensures dirForName(directives, "defer") == nil ==> !res0 && res1 == ""
+//@   modifies nothing
 //@ trusted (github.com/vektah/gqlparser/v2/ast.FragmentDefinitionList).ForName(name) (f)
 //@   pure
 //@ func collectFields [C01,C07,C13]
@@ -592,3 +600,14 @@ package graphql
 //@   goensures calls(Done) == 1
 //@   at `wg.Wait()` requires added == calls(spawn)
 //@   ensures old(len(m.delayed)) > 1 ==> calls(Wait) == 1
+
+// C06/C04: every recovered panic gets its OWN error value (ErrorOnPath stamps the response path into it; a shared
+// value would carry the first panic's path into every later one).
+//@ trusted fmt.Fprintln(w, a) (n, err)
+//@   pure
+//@ trusted fmt.Fprintf(w, format, a) (n, err)
+//@   pure
+//@ trusted runtime/debug.PrintStack()
+//@   pure
+//@ func DefaultRecover [C06,C04]
+//@   ensures res0 != nil && local(res0)
